@@ -759,7 +759,15 @@ void op_thread_batch(World& W)
   }
 }
 
-void op_shrink(World& W, int wi)
+size_t worker_queue_capacity(World& W, int wi)
+{
+  WInfo& x = W.workers[wi];
+  WInfo* xp = &x;
+  sim::run_on(x.w, [xp]() { xp->res_capacity = SFrontend::get_thread_local_queue_capacity(); });
+  return x.res_capacity;
+}
+
+void op_shrink(World& W, int wi, size_t forced_target = 0)
 {
   if (kBounded) return;
   if (wi < 0) return;
@@ -768,7 +776,8 @@ void op_shrink(World& W, int wi)
   if (!x.has_logged) return;
   Choices& c = *W.c;
   size_t target;
-  switch (c.pick(4))
+  if (forced_target) target = forced_target;
+  else switch (c.pick(4))
   {
   case 0: target = kInitCap; break;
   case 1: target = kInitCap * 2; break;
@@ -792,5 +801,26 @@ void op_shrink(World& W, int wi)
               std::to_string(after) + ", expected " + std::to_string(want));
   }
   if (after < before) { W.r->label("queue_shrunk"); W.lbl_shrink_between = true; }
+}
+
+// generator aimed at chains of buffers: two shrink requests back to back (no statement in between), then a statement, then
+// the thread exits — all inside one yield point of the backend's pass
+void op_shrink_chain_then_exit(World& W, int point)
+{
+  if (kBounded) return;
+  int wi = -1;
+  for (size_t k = 0; k < W.workers.size(); ++k)
+    if (W.workers[k].alive && W.workers[k].has_logged && !worker_busy(W, static_cast<int>(k))) { wi = static_cast<int>(k); if (W.c->pick(2)) break; }
+  if (wi < 0) return;
+  size_t cap0 = worker_queue_capacity(W, wi);
+  if (cap0 < 4 * 64) return;
+  W.r->label("shrink_chain");
+  op_shrink(W, wi, cap0 / 2);
+  if (W.r->failed) return;
+  op_shrink(W, wi, cap0 / 4);
+  if (W.r->failed) return;
+  unsigned n = 1 + W.c->pick(2);
+  for (unsigned k = 0; k < n; ++k) op_log(W, wi, true, point, -1, static_cast<int>(SKind::Normal), true);
+  if (W.c->pick(3) != 0) op_exit_thread(W, wi);
 }
 } // namespace
